@@ -24,7 +24,9 @@ type WorkerCfg struct {
 	Known      []string `json:"known"`
 	ReplayDir  string   `json:"replay_dir"`
 	SelfTest   bool     `json:"selftest"`
-	Progress   string   `json:"progress"` // file where the worker announces the run it is executing
+	Progress   string   `json:"progress"`   // file where the worker announces the run it is executing
+	StartIter  int      `json:"start_iter"` // first iteration of this worker's stride to execute (after a node crash the slot resumes behind it)
+	GenPlan    bool     `json:"gen_plan"`   // only generate the plan of iteration StartIter and write it to Out (no execution)
 }
 
 type FoundViolation struct {
@@ -88,8 +90,19 @@ func RunWorker(e Engine, cfg *WorkerCfg) error {
 	if cfg.SelfTest {
 		out.Digests = map[string]string{}
 	}
+	var statesRef, shapesRef *map[string]struct{}
 	write := func() error {
 		out.WallS = time.Since(start).Seconds()
+		if statesRef != nil {
+			out.States = out.States[:0]
+			for s := range *statesRef {
+				out.States = append(out.States, s)
+			}
+			out.Shapes = out.Shapes[:0]
+			for s := range *shapesRef {
+				out.Shapes = append(out.Shapes, s)
+			}
+		}
 		b, err := json.Marshal(out)
 		if err != nil {
 			return err
@@ -104,21 +117,31 @@ func RunWorker(e Engine, cfg *WorkerCfg) error {
 		out.Replay = doReplay(e, cfg)
 		return write()
 	}
+	if cfg.GenPlan {
+		label := e.Name() + "/" + cfg.Prop
+		runIdx := uint64(cfg.Worker + cfg.StartIter*cfg.Workers)
+		seed := Derive(cfg.MasterSeed, label, runIdx)
+		plan := e.Generate(cfg.Prop, NewRand(seed), cfg.Tier)
+		plan.Property, plan.Engine, plan.Seed, plan.Run = cfg.Prop, e.Name(), seed, runIdx
+		out.Samples = append(out.Samples, MustJSON(plan))
+		return write()
+	}
 	known := map[string]bool{}
 	for _, k := range cfg.Known {
 		known[k] = true
 	}
 	states := map[string]struct{}{}
 	shapes := map[string]struct{}{}
+	statesRef, shapesRef = &states, &shapes
 	label := e.Name() + "/" + cfg.Prop
-	for i := 0; i < cfg.MaxRuns; i++ {
+	for i := cfg.StartIter; i < cfg.MaxRuns; i++ {
 		if cfg.BudgetS > 0 && time.Since(start).Seconds() > cfg.BudgetS {
 			break
 		}
 		runIdx := uint64(cfg.Worker + i*cfg.Workers)
 		seed := Derive(cfg.MasterSeed, label, runIdx)
 		if cfg.Progress != "" {
-			_ = os.WriteFile(cfg.Progress, []byte(fmt.Sprintf("%d %d", runIdx, seed)), 0644)
+			_ = os.WriteFile(cfg.Progress, []byte(fmt.Sprintf("%d %d %d", runIdx, seed, i)), 0644)
 		}
 		rng := NewRand(seed)
 		plan := e.Generate(cfg.Prop, rng, cfg.Tier)
@@ -192,15 +215,9 @@ func RunWorker(e Engine, cfg *WorkerCfg) error {
 			fv.Detail = detail
 			_ = write()
 		}
-		if i%16 == 15 {
+		if i%8 == 7 {
 			_ = write()
 		}
-	}
-	for s := range states {
-		out.States = append(out.States, s)
-	}
-	for s := range shapes {
-		out.Shapes = append(out.Shapes, s)
 	}
 	return write()
 }
